@@ -208,10 +208,10 @@ func runHistory(t *testing.T, r *ev.Run, seed int64, p Params) (failed bool) {
 		}
 		if p.Debug {
 			h.tap = globalTap
-			globalTap.Keep = true
+			globalTap.SetKeep(true)
 			globalTap.Take()
 		} else {
-			globalTap.Keep = false
+			globalTap.SetKeep(false)
 		}
 		h.precision = []time.Duration{time.Second, time.Minute, time.Minute, time.Hour}[rng.Intn(4)]
 		h.expire = h.precision * time.Duration(2+rng.Intn(100))
